@@ -7,11 +7,12 @@ from pgverif import tlc
 META = {
     'level': 'model_checking',
     'technique': 'TLA+ spec Callable.tla: Python argument binding (BindV) + the functor life cycle '
-                 '(Construct / SetAttr / DelAttr / Rebind / Clone / JsonRT / Call with override_args and ignore_extra_args) '
+                 '(Construct / SetAttr / DelAttr / ordered multi-entry Rebind incl. nested paths / Clone / JsonRT / Call with '
+                 'override_args and ignore_extra_args, each in several value modes: distinct, equal on both routes, as bound, boxed) '
                  'as a state machine; TLC checks that the effective call is well defined and that full / late binding '
                  'coincide with a direct call, exports the binding table, and simulates life cycles; the driver generates '
                  'the Python function of every signature, validates BindV against the interpreter, and replays table and '
-                 'behaviours through pg.functor, pg.symbolize(fn), a pg.Object subclass and pg.symbolize(cls)',
+                 'behaviours through pg.functor, pg.symbolize(fn), a pg.Object subclass and pg.symbolize(cls) (also .partial)',
     'level_text': 'Callable.tla models Python\'s binding algorithm for every signature shape (0-3 positional with/without '
                   'defaults, *args, keyword-only with/without default, **kw) and the documented merge of construction-time, '
                   'attribute-time and call-time arguments of a functor. TLC proves on the model that binding everything at '
